@@ -1,17 +1,23 @@
 //! A registry for arbitrary state.
 
+#[cfg(not(any(kani, mahf_verif)))]
+use std::collections::HashMap;
 use std::{
     any::TypeId,
     cell::{Ref, RefCell, RefMut},
-    collections::HashMap,
     ops::{Deref, DerefMut},
 };
+
+#[cfg(any(kani, mahf_verif))]
+use self::kmap::HashMap;
 
 use better_any::TidExt;
 
 mod custom;
 pub mod entry;
 pub mod error;
+#[cfg(any(kani, mahf_verif))]
+pub mod kmap;
 pub mod multi;
 
 pub use custom::CustomState;
